@@ -1161,7 +1161,7 @@ func main() {
 		Exec:       execCase,
 		Oracle:     oracle,
 		NonTrivial: nonTrivial,
-		Rule:       "a network at height 1 of 4..7 validators (6 power configurations incl. one validator above 2/3): every correct validator is a REAL consensus.State (kvstore app, in-memory stores, own FilePV or MockPV signer, recording ticker, never started) driven synchronously through handleMsg/handleTimeout; the network is the log of every signed message: each proposal/vote a real node signs is appended in signing order, faulty validators (played by the generator) append anything under their own index, anybody appends messages whose signature does not verify; `deliver` feeds any logged message to any correct node via any peer, any number of times, in any order or never; block bodies (own block of each validator, 2 valid blocks with a tx, 1 invalid block, 1 id nobody has a block for) and VoteSetMaj23 claims are handed over at will; timeouts fire only if the node scheduled them. Generated adaptively against the live nodes: seeded schedulers with loss/duplication/reordering/partitions, equivocating proposals and votes, round skipping, votes shown to one side only, forged messages, claims; happy paths to decisions in rounds 0..3; scripted lock-then-partition-then-competing-decision-then-heal scenarios; scripted late-polka scenarios (a polka for a block or for nil of an EARLIER round that nobody saw in time is delivered after correct nodes locked in a later round, one correct node has already decided the locked block, then a faulty proposer offers and votes for a competing block); scripted locked-pol scenarios (a node locked in round 0 whose round-1 polka for the same block completes only after it left round 1, then a faulty proposer offers another block with proof-of-lock-round claims of every kind while another correct node holds the round-0 commit); forged-slots (one faulty validator sprays votes whose slot, address and signer do not belong together - every combination incl. replayed signatures of correct validators - repeatedly and to different nodes; the oracle counts distinct SIGNERS); claim-replay (an equivocating vote that a VoteSetMaj23 claim makes the vote set track, redelivered many times through different peers); own-delay (happy and scheduler runs in which 30..100% of the node ops leave the node's own proposal/part/votes queued and `own` ops hand them over late and out of order); unjudged runs with >= 1/3 faulty power in which the faulty validators make two correct nodes decide differently (shows the oracle can fire). A node that decides also shows the commit it STORED (the seen commit = VoteSet.MakeCommit of the commit round, one flag per validator) and the verdict of the real ValidatorSet.VerifyCommit on it; the model computes both from its vote set (canonical slots after the quorum copy). After every op the moved node's round, step, lock, valid block, proposal, parts, commit round, proposer, every vote set's sums/majority/buckets, every signature with its log position, scheduled timeout, decision and panic are compared with the Lean model Tmv.Net. Non-trivial = some correct node signed a block precommit or decided; distinct by hash of the op list",
+		Rule:       "a network at height 1 of 4..7 validators (6 power configurations incl. one validator above 2/3): every correct validator is a REAL consensus.State (kvstore app, in-memory stores, own FilePV or MockPV signer, recording ticker, never started) driven synchronously through handleMsg/handleTimeout; the network is the log of every signed message: each proposal/vote a real node signs is appended in signing order, faulty validators (played by the generator) append anything under their own index, anybody appends messages whose signature does not verify; `deliver` feeds any logged message to any correct node via any peer, any number of times, in any order or never; block bodies (own block of each validator, 2 valid blocks with a tx, 1 invalid block, 1 id nobody has a block for) and VoteSetMaj23 claims are handed over at will; timeouts fire only if the node scheduled them. Generated adaptively against the live nodes: seeded schedulers with loss/duplication/reordering/partitions, equivocating proposals and votes, round skipping, votes shown to one side only, forged messages, claims; happy paths to decisions in rounds 0..3; scripted lock-then-partition-then-competing-decision-then-heal scenarios; scripted late-polka scenarios (a polka for a block or for nil of an EARLIER round that nobody saw in time is delivered after correct nodes locked in a later round, one correct node has already decided the locked block, then a faulty proposer offers and votes for a competing block); scripted locked-pol scenarios (a node locked in round 0 whose round-1 polka for the same block completes only after it left round 1, then a faulty proposer offers another block with proof-of-lock-round claims of every kind while another correct node holds the round-0 commit); forged-slots (one faulty validator sprays votes whose slot, address and signer do not belong together - every combination incl. replayed signatures of correct validators - repeatedly and to different nodes; the oracle counts distinct SIGNERS); claim-replay (an equivocating vote that a VoteSetMaj23 claim makes the vote set track, redelivered many times through different peers); restart (nets with wal=1: every node writes a real consensus WAL exactly as receiveRoutine does - consensus/verif_export_c01.go - and `restart node=i` is a REAL restart: a new consensus.State on the same stores, WAL and FilePV files behind a consensus Reactor waiting for sync, handed over by the real blockchain/v0 BlockchainReactor poolRoutine in a p2p Switch after a peer's StatusResponse shows nothing to sync - SwitchToConsensus(state, skipWAL) -, WAL catch-up by State.OnStart, then stopped and driven synchronously again; scripted: the locked victims of the late-polka scenario crash and restart before a faulty proposer offers another block; random restarts in happy runs); own-delay (happy and scheduler runs in which 30..100% of the node ops leave the node's own proposal/part/votes queued and `own` ops hand them over late and out of order); unjudged runs with >= 1/3 faulty power in which the faulty validators make two correct nodes decide differently (shows the oracle can fire). A node that decides also shows the commit it STORED (the seen commit = VoteSet.MakeCommit of the commit round, one flag per validator) and the verdict of the real ValidatorSet.VerifyCommit on it; the model computes both from its vote set (canonical slots after the quorum copy). After every op the moved node's round, step, lock, valid block, proposal, parts, commit round, proposer, every vote set's sums/majority/buckets, every signature with its log position, scheduled timeout, decision and panic are compared with the Lean model Tmv.Net. Non-trivial = some correct node signed a block precommit or decided; distinct by hash of the op list",
 		Assumptions: []string{
 			"one height; a block id stands for (hash, part-set header) of a one-part block; block validity is that of the real BlockExecutor.ValidateBlock on the real blocks",
 			"signatures ideal: a logged message is re-signed at delivery time with the known key of its sender and a fixed timestamp (or with a corrupted signature when ok=0); a correct validator's key signs only inside its own node",
